@@ -59,7 +59,7 @@ func init() {
 		steps := []struct {
 			name, re string
 		}{
-			{"parts", `^bs\.saveBlockPart\(block\.Header\.Height, `},
+			{"parts", `^bs\.saveBlockPart\(block\.Header\.Height, |^bs\.db\.Set\(store\.calcBlockPartKey\(block\.Header\.Height, `}, // through the part helper, or written in the loop itself
 			{"meta", `^bs\.db\.Set\(store\.calcBlockMetaKey\(block\.Header\.Height\), `},
 			{"hash index", `^bs\.db\.Set\(store\.calcBlockHashKey\(block\.Hash\(\)\), `},
 			{"commit of the previous height", `^bs\.db\.Set\(store\.calcBlockCommitKey\(\(block\.Header\.Height - 1\)\), `},
@@ -136,7 +136,14 @@ func init() {
 		}
 		// every part index 0..Total-1 is stored under its own index
 		if calls[0] != nil {
-			c.Check(w.callStr(calls[0]) == "bs.saveBlockPart(block.Header.Height, phi((phi:i + 1)|0), blockParts.GetPart(phi((phi:i + 1)|0)))", fk+" :: part i stored under index i", w.ipos(calls[0]), "saveBlockPart(h, i, GetPart(i))", w.callStr(calls[0]))
+			got := w.callStr(calls[0])
+			idx := `phi((phi:i + 1)|0)`
+			okIdx := got == "bs.saveBlockPart(block.Header.Height, "+idx+", blockParts.GetPart("+idx+"))"
+			if !okIdx {
+				// the part helper written out in the loop: key of index i, value encoded from GetPart(i)
+				okIdx = strings.HasPrefix(got, "bs.db.Set(store.calcBlockPartKey(block.Header.Height, "+idx+"), ") && strings.Contains(got, "blockParts.GetPart("+idx+").ToProto()")
+			}
+			c.Check(okIdx, fk+" :: part i stored under index i", w.ipos(calls[0]), "saveBlockPart(h, i, GetPart(i))", got)
 			c.guards(f, calls[0], fk+" :: part loop", 0, guardCmp("i below the part count", `phi\(\(phi:i \+ 1\)\|0\)`, "<", `blockParts\.Total\(\)`))
 		}
 		if g := c.fn("store", "SaveBlockStoreState"); g != nil {
